@@ -104,12 +104,23 @@ def check(ck):
     K, D, L = shape.K, shape.D, shape.L
     lo, hi = spec.PREDEFINED_RANGE
     codes = [lo - 1, lo, lo + 1, hi - 1, hi, hi + 1, 0, 1, -1, -32768, 32700, -32600, -32603, 1.5, -32000.0]
+    shapes_ = [("message+data", lambda c: {"code": K(c), "message": K("m"), "data": K("d")})]
+    if ck.tier == "thorough":
+        # every integer within 3 of both ends of the predefined range, a grid through it, floats next to the ends, large
+        # magnitudes; each with and without a data member and with a null data member
+        codes = sorted(set(codes + list(range(lo - 3, lo + 4)) + list(range(hi - 3, hi + 4)) + list(range(lo, hi + 1, 50)) +
+                           [lo - 0.5, lo + 0.5, hi - 0.5, hi + 0.5, float(lo), float(hi), -10 ** 9, 10 ** 9, 2 ** 31, -2 ** 31, 32000, 32700, -1.0, 0.0]),
+                       key=lambda x: (float(x), str(type(x))))
+        shapes_ += [("message only", lambda c: {"code": K(c), "message": K("m")}),
+                    ("data null", lambda c: {"code": K(c), "message": K("m"), "data": K(None)}),
+                    ("data falsy", lambda c: {"code": K(c), "message": K(""), "data": K(0)})]
     cases = []
     for c in codes:
         inrange = lo <= c <= hi
         for form in ("2.0", "1.0"):
-            err = D({"code": K(c), "message": K("m"), "data": K("d")})
-            cases.append(("code=%r %s" % (c, form), err, form, "ProtocolError" if inrange else "AppError", c))
+            for (sl, mk_) in shapes_:
+                err = D(mk_(c))
+                cases.append(("code=%r %s%s" % (c, form, "" if sl == "message+data" else " " + sl), err, form, "ProtocolError" if inrange else "AppError", c))
     for c in ("abc", None, [1], True):
         err = D({"code": K(c) if not isinstance(c, list) else L([K(1)]), "message": K("m")})
         cases.append(("code=%r" % (c,), err, "2.0", "AppError" if c is not True else "AppError", c))
@@ -143,9 +154,16 @@ def check(ck):
                        "a reply with %s makes the client %s%s; the property requires %s" % (
                            label, ("raise " + got) if got != "returns" else "return a value", detail, want), q.loc(fc, fc.node))
     # no error -> returns
-    for label, keys in (("error absent", {"result": K(0), "id": K(1), "jsonrpc": K("2.0")}),
-                        ("error null", {"result": K(False), "error": K(None), "id": K(1)}),
-                        ("error {}", {"result": K(""), "error": D(), "id": K(1)})):
+    ok_cases = [("error absent", {"result": K(0), "id": K(1), "jsonrpc": K("2.0")}),
+                ("error null", {"result": K(False), "error": K(None), "id": K(1)}),
+                ("error {}", {"result": K(""), "error": D(), "id": K(1)})]
+    if ck.tier == "thorough":
+        for rl, rv in (("0", K(0)), ("0.0", K(0.0)), ("False", K(False)), ("''", K("")), ("[]", L([])), ("{}", D()), ("None", K(None)),
+                       ("1", K(1)), ("'x'", K("x")), ("[0]", L([K(0)]))):
+            ok_cases.append(("result %s, error absent (2.0)" % rl, {"result": copy.deepcopy(rv), "id": K(1), "jsonrpc": K("2.0")}))
+            ok_cases.append(("result %s, error null (1.0)" % rl, {"result": copy.deepcopy(rv), "error": K(None), "id": K(1)}))
+            ok_cases.append(("result %s, error null, id null (2.0)" % rl, {"result": copy.deepcopy(rv), "error": K(None), "id": K(None), "jsonrpc": K("2.0")}))
+    for label, keys in ok_cases:
         ev = shape.subscript_patch(shape.Evaluator(prog, "jsonrpc", lenient=True))
         rep = shape.dict_sym("reply", keys)
         res = ev.run(fc, {param: rep})
